@@ -27,24 +27,45 @@ Proof.
     cbn [nabs ndiv nofZ RNum]. rewrite Rabs_R1. lra.
 Qed.
 
-(* ---------------- binary64: the shortcut's J is NOT zero everywhere in the bore.
-   Over R (full_segment_J_R) J = 0 for 0 < r <= r1.  In binary64 the two BHJM_magnet_cylinder calls of the shortcut
-   decide |z|/r0 <= (h/2)/r0 with their own r0; one ulp below the bottom plane the outer cylinder says "outside"
-   and the inner one "inside", so the ring reports J = 0 - J = -J in its empty bore. *)
+(* ---------------- binary64 record of the defect repaired by /repo commit b977b89.
+   Over R (full_segment_J_R) J = 0 for 0 < r <= r1, whatever the placement of the test.  In binary64 the OLD variant
+   (test |z|/r0 <= (h/2)/r0 after the scaling, pre = false) lets the two BHJM_magnet_cylinder calls of the shortcut
+   decide with their own r0: one ulp below the bottom plane the outer cylinder says "outside" and the inner one
+   "inside", so the ring reported J = 0 - J = -J in its empty bore.  With the test before the scaling (pre = true,
+   the code as it is now) both calls take the same decision and the same row gives J = 0. *)
 From Coq Require Import Floats.
-Lemma bore_witness_refutes :
-  GenCylMask.cyl_bases_before_scaling = false ->        (* the placement of the test in the code as translated NOW *)
+Lemma bore_witness_old_variant :
   @mask_segment FNum bore_witness = false /\
   (let '((ox, oy, oz), _, (r1, _, h, _, _)) := bore_witness in
    PrimFloat.ltb (PrimFloat.sqrt (ox * ox + oy * oy)) r1 = true /\          (* inside the bore *)
    PrimFloat.ltb (h / 2) (PrimFloat.abs oz) = true)%float /\                (* and not between the face planes *)
-  @full_cylinder_spec FNum (@cyl_JM_row FNum mu0_f) FJ bore_witness = (0, 0, -1)%float.
-Proof. intros H. vm_compute in H. first [discriminate H | (vm_compute; repeat split)]. Qed.
+  @full_cylinder_spec FNum (@cyl_JM_row_gen FNum false mu0_f) FJ bore_witness = (0, 0, -1)%float.
+Proof. vm_compute. repeat split. Qed.
 
-(* with the test before the scaling (the proposed repair) the same row gives J = 0 *)
-Lemma bore_witness_repaired :
-  (let '(o, p, (r1, r2, h, _, _)) := bore_witness in
-   let cylJ := fun d => if @cyl_inside_gen FNum true (PrimFloat.sqrt (fst (fst o) * fst (fst o) + snd (fst o) * snd (fst o))) (snd o) d h
-                        then p else (0, 0, 0) in
-   @vsub3 FNum (cylJ (2 * r2)) (cylJ (2 * r1)) = (0, 0, 0))%float.
+Lemma bore_witness_current_variant :
+  @full_cylinder_spec FNum (@cyl_JM_row_gen FNum true mu0_f) FJ bore_witness = (0, 0, 0)%float.
 Proof. vm_compute. reflexivity. Qed.
+
+(* for EVERY numeric carrier (binary64 included): with the test before the scaling the two cylinders of the shortcut
+   take the same between-the-bases decision, because it depends on z and h only *)
+Lemma between_bases_same_decision (N : NumOps) (r z d1 d2 h : num N) :
+  (@cyl_inside_gen N true r z d1 h = true -> nleb N (nabs N z) (ndiv N h (nofZ N 2)) = true) /\
+  (nleb N (nabs N z) (ndiv N h (nofZ N 2)) = false ->
+     @cyl_inside_gen N true r z d1 h = false /\ @cyl_inside_gen N true r z d2 h = false).
+Proof.
+  unfold cyl_inside_gen. split.
+  - intros H. apply andb_prop in H. tauto.
+  - intros H. rewrite H. split; reflexivity.
+Qed.
+
+(* hence, for every carrier, a point that is not between the bases gets J exactly (0 - 0) from the shortcut *)
+Lemma full_segment_J_outside_bases (N : NumOps) (mu0 : num N) (o p : @vec N) (r1 r2 h phi1 phi2 : num N) :
+  let '(ox, oy, oz) := o in
+  nleb N (nabs N oz) (ndiv N h (nofZ N 2)) = false ->
+  @full_cylinder_spec N (@cyl_JM_row_gen N true mu0) FJ (o, p, (r1, r2, h, phi1, phi2)) =
+  if neqb N r1 (nofZ N 0) then vzero3 else vsub3 vzero3 vzero3.
+Proof.
+  destruct o as [[ox oy] oz]. intros H.
+  unfold full_cylinder_spec, outer_row, inner_row, cyl_JM_row_gen, cyl_JM_gen, cyl_inside_gen.
+  rewrite H. simpl. reflexivity.
+Qed.
